@@ -75,8 +75,15 @@ static void c07_case(const vector<Tpl> &T, int a, int b, int n, int code, int sz
             bool excused = false; for (auto *u : ux) for (auto m : mine[k]) if (u->cc == m) excused = true; for (auto *u : uy) for (auto m : mine[k]) if (u->cc == m) excused = true;
             // makeFeasible() on its own reports through SubConstraintInfo::satisfied, not through the lists
             if (mode == 2) for (auto m : mine[k]) for (auto *sc : m->_subConstraintInfo) if (!sc->satisfied) excused = true;
-            // known-finding class: two user equalities on one axis that contradict each other, with overlap avoidance on
-            vector<string> kc; if (overlap && used.size() == 2 && T[used[0]].name.find("==") != string::npos && T[used[1]].name.find("Distribution") == 0 && T[used[0]].name[11] == T[used[1]].name[13]) kc.push_back("contradicting_equalities_with_nonoverlap");
+            // known-finding class: overlap avoidance on, two user EQUALITY constraints that share an axis (Separation ==, Alignment,
+            // Distribution, FixedRelative), this one violated and unreported while the OTHER one is named in the lists
+            vector<string> kc;
+            if (overlap && used.size() == 2) {
+                auto eqAxes = [&](const string &nm) { int m = 0; if (nm.find("FixedRelative") == 0) m = 3; else if (nm.find("==") != string::npos || nm.find("Alignment") == 0 || nm.find("Distribution") == 0) m = nm.find(" X ") != string::npos ? 1 : 2; return m; };
+                int mine_ = eqAxes(T[used[k]].name), other_ = eqAxes(T[used[1 - k]].name); bool otherReported = false;
+                for (auto *lst : {&ux, &uy}) for (auto *u : *lst) for (auto m : mine[1 - k]) if (u->cc == m) otherReported = true;
+                if ((mine_ & other_) && otherReported) kc.push_back("contradicting_equalities_with_nonoverlap");
+            }
             if (excused) ctx.count("violated_and_reported");
             else ctx.violation(anyRep ? "violated_other_constraint_reported" : "violated_without_report", kc, desc, mcx::fmt("[%s] violated by %g; reported %zu+%zu (%s); final ", T[used[k]].name.c_str(), v, ux.size(), uy.size(), who.c_str()) + pos);
         }
